@@ -105,7 +105,7 @@ def r2(db, rep, cache):
                  "derived from RefProgramLocation::backward() (definitions reaching before the location executes); "
                  "both chain builders reach such a read")
     import panics
-    g = panics.CallGraph(db)
+    g = panics.call_graph(db)
     for root in (UD, DU):
         reach = g.reach([root], stop=())
         scope = [f for f in reach if f.startswith(("analysis::use_def", "analysis::def_use", RD + "::reaching_definitions_in"))
